@@ -55,7 +55,9 @@ def is_bookkeeping(sql):
 class Seams(object):
     """SQL wrapper + fault injector + signal recorder sharing one sequence."""
 
-    def __init__(self, trace, fault, scope='evo'):
+    def __init__(self, trace, fault, scope='evo', render=False):
+        self.render = render
+        self._qp = {}
         self.trace = trace
         self.fault = fault or None
         self.scope = scope
@@ -72,6 +74,8 @@ class Seams(object):
                   'params': _norm_params(params), 'k': kind}
             if many:
                 ev['many'] = True
+            if self.render and kind != 'txn':
+                ev['rendered'] = self._rendered(alias, sql, params)
             book = kind == 'write' and is_bookkeeping(sql)
             if book:
                 ev['book'] = True
@@ -96,6 +100,22 @@ class Seams(object):
                 raise OperationalError('evosim: injected failure')
             return execute(sql, params, many, context)
         return wrapper
+
+    def _rendered(self, alias, sql, params):
+        """The statement with parameters substituted by the backend's own
+        quoting rule (the one the SQL preview uses)."""
+        try:
+            qp = self._qp.get(alias)
+            if qp is None:
+                from django_evolution.db import EvolutionOperationsMulti
+                qp = EvolutionOperationsMulti(alias).get_evolver(
+                ).quote_sql_param
+                self._qp[alias] = qp
+            if params:
+                return sql % tuple(qp(p) for p in params)
+            return sql
+        except Exception as e:
+            return '<render error %r>' % (e,)
 
     def connect_signals(self):
         from django_evolution import signals as S
@@ -210,7 +230,8 @@ def run_request(req):
 
 def _with_seams(req, trace):
     from django.db import connections
-    seams = Seams(trace, req.get('fault'), req.get('scope', 'evo'))
+    seams = Seams(trace, req.get('fault'), req.get('scope', 'evo'),
+                  render=bool(req.get('render_sql')))
     seams.connect_signals()
     ctxs = []
     for alias in sorted(req['databases']):
